@@ -162,4 +162,8 @@ def import_pfhedge(repo=None):
             d['ceil'] = symmath.ceil
         if d.get('floor') is _math.floor:
             d['floor'] = symmath.floor
+        # `int(...)` / `float(...)` applied to symbolic values (quadratic_cvar's precision, fit's loss.item())
+        from ..proxies import symint, symfloat
+        d.setdefault('int', symint)
+        d.setdefault('float', symfloat)
     return pf
